@@ -209,6 +209,7 @@ def run(tier, seed, replay=None):
     else:
         cases = load_corpus("C02") + [gen_case(rng) for _ in range(n)]
     diverged = []
+    unconfirmed = []
     late_seen = 0
     for b0 in range(0, len(cases), 100):
         batch = cases[b0:b0 + 100]
@@ -229,6 +230,13 @@ def run(tier, seed, replay=None):
                     p = rep.replay_file("late_abort_%d.case" % (b0 + ci), "# %s at op %d\n" % (text[5:], k) + "\n".join(case) + "\n")
                     rep.violation(p, text[5:], key=KEY_LATE)
                 else:
+                    # the virtual clock runs on top of real time: on a loaded machine the milliseconds a script itself
+                    # takes can push an operation over a deadline that is several hundred virtual ms away.  A failure
+                    # that the code causes repeats; one that the machine causes does not: confirm by two re-runs.
+                    again = [oracle(case, run_cases(impl, [case])[0][0]) for _ in range(2)]
+                    if not all(again):
+                        unconfirmed.append("case %d: %s (not reproduced in %d of 2 re-runs)" % (b0 + ci, text, sum(1 for a in again if not a)))
+                        continue
                     small = ddmin(case, lambda c: oracle(c, run_cases(impl, [c])[0][0]) is not None, max_iter=80)
                     p = rep.replay_file("spec_%d.case" % (b0 + ci), "# %s at op %d (%s)\n" % (text, k, case[k]) + "\n".join(small) + "\n")
                     rep.violation(p, "aio: %s (op %d: %s)" % (text, k, case[k]))
@@ -273,7 +281,15 @@ def run(tier, seed, replay=None):
         for kv in m.group(4).split(","):
             a, b = kv.split(":"); kinds[a] = kinds.get(a, 0) + int(b)
         if int(m.group(2)) > 0:
-            p = rep.replay_file("trace_mismatch_%d.txt" % sd, "\n".join(l for l in o2 if l.startswith("MISMATCH")) + "\n")
+            mm = [l for l in o2 if l.startswith("MISMATCH")]
+            ctx = []
+            m0 = re.match(r"MISMATCH seq=(\d+) aio=(\d+)", mm[0]) if mm else None
+            if m0:
+                # the records of that aio around the mismatch (T seq kind aio flags result arg)
+                tl = [l for l in out if l.startswith("T ") and l.split()[3] == m0.group(2)]
+                idx = next((i for i, l in enumerate(tl) if l.split()[1] == m0.group(1)), 0)
+                ctx = ["# records of aio %s around seq %s:" % (m0.group(2), m0.group(1))] + tl[max(0, idx - 8):idx + 9]
+            p = rep.replay_file("trace_mismatch_%d.txt" % sd, "\n".join(mm + ctx) + "\n")
             rep.violation(p, "H2 trace: %s critical sections of aio.c are not instances of the model's step functions (seed %d); first: %s" % (m.group(2), sd, [l for l in o2 if l.startswith("MISMATCH")][0][:300]), nofail=True)
     # ---- 3. the directed schedule of the early-timeout witness (AioProofs.early_timeout_run) on the real expire thread
     probe, err = wb_build(bdir, "probe_expire_batch.c")
@@ -329,10 +345,10 @@ def run(tier, seed, replay=None):
                     "traces_validated_against_impl": nstress, "trace_records_replayed": tot_rec,
                     "trace_kind_histogram": kinds, "unlocked_reset_races_observed": tot_race,
                     "stress_operations": tot_sub, "stress_callbacks_with_foreign_result": tot_bad,
-                    "expire_batch_probe": probe_out, "directed_probe": directed_out, "scripted_cases": len(cases), "scripted_divergences": len(diverged),
+                    "expire_batch_probe": probe_out, "directed_probe": directed_out, "scripted_cases": len(cases), "scripted_divergences": len(diverged), "unconfirmed_observations": unconfirmed[:20],
                     "rule": "scripted: random sequences of begin/finish/cancel/abort/sleep/timeouts/advance(virtual clock)/stop on 1-3 aios with a test provider over the public provider API, implementation vs model line by line + oracle (exactly once, results, stop, no early timeout); stress: 4-8 threads of random concurrent operations on 4-7 aios with the H2 trace on, every logged critical section replayed through the extracted AioFw.fw_step, per-aio submission/callback counters",
                     "samples": [cases[0][:14]] if cases else [],
                     "observations": ["nni_aio_reset writes a_abort/a_result/a_expire_ok/a_sleep without eq_mtx and races with nni_aio_abort (counted as unlocked_reset_races, not a conformance failure)"]})
-    rep.assumptions += ["mutual exclusion of eq_mtx/task_mtx and condition-variable semantics are trusted", "the test provider honours the provider contract (finish at most once per successful start)",
+    rep.assumptions += ["mutual exclusion of eq_mtx/task_mtx and condition-variable semantics are trusted", "an absolute expiry is set between operations, not while one is in flight on the aio (nni_aio_set_expire writes the in-flight deadline field unlocked): the driver refuses such a call", "the test provider honours the provider contract (finish at most once per successful start)",
                         "prep+start of nni_aio_start are modelled as one step"]
     return rep.finish()
